@@ -443,17 +443,22 @@ func parsePossibilityStage(input *input, stageSet *StageSet) error {
 	eatWhitespace(input)
 
 	stage := Stage{}
+	// A profile may be negated by a leading exclamation mark, as an
+	// architecture may.
+	if input.Peek() == '!' {
+		input.Next()
+		stage.Not = true
+	}
 	for {
 		peek := input.Peek()
 		switch peek {
 		case 0:
 			return errors.New("Oh no. Reached EOF before Stage finished")
 		case '!':
-			input.Next()
-			if stage.Not {
+			if stage.Name == "" {
 				return errors.New("Double-negation (!!) of a single Stage is not permitted :(")
 			}
-			stage.Not = !stage.Not
+			return errors.New("A Stage can only be negated in front of its name :(")
 		case '>', ' ', '\t', '\r', '\n': /* Let our parent deal with these */
 			stageSet.Stages = append(stageSet.Stages, stage)
 			return nil
